@@ -50,10 +50,10 @@ def main():
                 res["suite_passes_with_patch"] = (rc == 0 and not fails)
                 res["suite_output_tail"] = out[-1500:]
                 shutil.copy(demo, os.path.join(wt, meta["demo_path"]))
-                rc, out = sh(meta["demo_cmd"].replace("/tmp/wt-%s" % pid.lower(), wt), cwd=wt)
+                rc, out = sh(meta["demo_cmd"].replace("/tmp/wt-%s" % pid.lower(), wt).replace("<repo>", wt), cwd=wt)
                 res["demo_fails_with_patch"] = rc != 0
                 sh("git apply -R %s" % patch, cwd=wt)
-                rc, out = sh(meta["demo_cmd"].replace("/tmp/wt-%s" % pid.lower(), wt), cwd=wt)
+                rc, out = sh(meta["demo_cmd"].replace("/tmp/wt-%s" % pid.lower(), wt).replace("<repo>", wt), cwd=wt)
                 res["demo_passes_without_patch"] = rc == 0
                 if rc != 0:
                     res["demo_pristine_output"] = out[-1500:]
